@@ -506,7 +506,8 @@ func Explore(c *core.Ctx) int64 {
 		if k.faults > 0 && !c.Quick() && len(k.names) == 2 {
 			mcOps = 3
 		}
-		if !k.marked {
+		if !k.marked && !(len(k.names) >= 3 && k.faults > 0) {
+			// (three brokers with a fault are simulated only: the exhaustive run does not finish in an hour)
 			c.ModelCheck("MC_Gossip", mc("none", mcOps, k.per, true, false), tlc.Opts{})
 		}
 		gen := "sim"
